@@ -73,7 +73,9 @@ theorem cas_ap (c : BankMachine.Cfg) (s : BankMachine.State) (i : BankMachine.In
   simp only [BankMachine.req, BankMachine.step] at hcas ⊢
   cases hf : s.fsm <;> simp [hf] at hcas
   simp [hf, hcas, hr, hm, hc, Nat.testBit_or]
-  split <;> simp <;> decide
+  have h1024 : Nat.testBit 1024 10 = true := by decide
+  repeat' split
+  all_goals simp_all
 
 /-! ### rank decode ↔ chip selects -/
 theorem filter_range_singleton (n k : Nat) (p : Nat → Bool) (hk : k < n) (hp : ∀ r, r < n → (p r = true ↔ r = k)) :
